@@ -963,6 +963,14 @@ fn lifecycle_choices(spec: &Spec, cfg: BuildCfg, max_clones: usize) -> Vec<Op> {
             on_thread: false,
             inject: None,
         });
+        // a call no clause mentions: a mock-induced panic (caught), i.e. a recorded error
+        out.push(Op::Call {
+            inst: i,
+            method: MethodId::A3,
+            args: vec![2],
+            on_thread: false,
+            inject: None,
+        });
         out.push(Op::MakeRef(i));
         if cfg.has_lock {
             out.push(Op::MakeRefClone(i));
